@@ -157,10 +157,10 @@ theorem gen_mdft_terms (conj : K → K) (M m n N : Nat) (Eo f y Ei : Model.C06.M
     dft2BackKey Q shift a b = dft2FwdKey Q shift a b ∧ idft2BackKey Q shift a b = idft2FwdKey Q shift a b ∧
     dft2FwdKey Q shift a b ≠ idft2FwdKey Q shift a b := by
   refine ⟨?_, ?_, ?_, ?_, ?_, ?_, ?_⟩
-  · first | rfl | (funext i j; simp only [dft2FwdTerm, Model.C06.dft2, matmul_assoc])
-  · first | rfl | (funext i j; simp only [dft2BackTerm, Model.C06.dftBack, Model.C06.conjT, matmul_assoc])
-  · first | rfl | (funext i j; simp only [idft2FwdTerm, Model.C06.idft2, matmul_assoc])
-  · first | rfl | (funext i j; simp only [idft2BackTerm, Model.C06.dftBack, Model.C06.conjT, matmul_assoc])
+  · first | rfl | (simp only [dft2FwdTerm, Model.C06.dft2, matmul_assoc] <;> first | done | rfl) | (simp only [dft2FwdTerm, Model.C06.dft2, ← matmul_assoc] <;> first | done | rfl)
+  · first | rfl | (simp only [dft2BackTerm, Model.C06.dftBack, Model.C06.conjT, matmul_assoc] <;> first | done | rfl) | (simp only [dft2BackTerm, Model.C06.dftBack, Model.C06.conjT, ← matmul_assoc] <;> first | done | rfl)
+  · first | rfl | (simp only [idft2FwdTerm, Model.C06.idft2, matmul_assoc] <;> first | done | rfl) | (simp only [idft2FwdTerm, Model.C06.idft2, ← matmul_assoc] <;> first | done | rfl)
+  · first | rfl | (simp only [idft2BackTerm, Model.C06.dftBack, Model.C06.conjT, matmul_assoc] <;> first | done | rfl) | (simp only [idft2BackTerm, Model.C06.dftBack, Model.C06.conjT, ← matmul_assoc] <;> first | done | rfl)
   · rfl
   · rfl
   · simp [dft2FwdKey, idft2FwdKey]
@@ -645,8 +645,8 @@ theorem driver_pipelines_agree {K : Type} [Num K] (cosf sinf sqrtf : K → K) (t
 
 /-- `ℂ` with complex conjugation is an instance of `(C, conj)` -/
 example (M m n N : Nat) (Eo Ei f y : Model.C06.Mat ℂ) :
-    Model.C06.ip2 (starRingEnd ℂ) M N y (Model.C06.dft2 M m n N Eo f Ei)
-      = Model.C06.ip2 (starRingEnd ℂ) m n (Model.C06.dftBack (starRingEnd ℂ) M m n N Eo y Ei) f :=
+    Model.C06.ip2 (starRingEnd ℂ) M N y (dft2FwdTerm M m n N Eo f Ei)
+      = Model.C06.ip2 (starRingEnd ℂ) m n (dft2BackTerm (starRingEnd ℂ) M m n N Eo y Ei) f :=
   triple_product_adjoint (starRingEnd ℂ) (fun a => by simp) M m n N Eo Ei f y
 
 /-- real arrays: `ℝ` with the identity -/
